@@ -31,6 +31,7 @@ def h_portPre : Handler := fun j => do
   match N.portPre n1 n2 with
   | .error e => pure (Json.mkObj [("err", e.tag)])
   | .ok .early => pure (Json.mkObj [("early", true)])
+  | .ok .infinite => pure (Json.mkObj [("infinite", true)])
   | .ok (.sys N' keep A e i1) =>
     pure (Json.mkObj [("A", jsonMat A), ("e", jsonVec e), ("i1", Json.num (Lean.JsonNumber.fromNat i1)),
       ("keep", Json.arr (keep.map Json.bool).toArray),
@@ -76,7 +77,7 @@ def h_portSweep : Handler := fun j => do
   let dc : Json := match nets with
     | N0 :: _ => jsonExcept jsonGQ (dcResistance (fun z : GQ => GQ.ofRat z.re) f N0)
     | [] => Json.null
-  pure (Json.mkObj [("sweep", jsonExcept jsonVec (sweep f nets)), ("dc", dc)])
+  pure (Json.mkObj [("sweep", jsonExcept (fun (l : List (Option GQ)) => Json.arr (l.map fun o => match o with | some z => jsonGQ z | none => Json.str "inf").toArray) (sweep f nets)), ("dc", dc)])
 
 /-! ### C06: executable Spec (rank-general, because a port can be determined in a network that
 is not well-posed as a whole — e.g. some *other* node hangs on open branches only) -/
@@ -149,6 +150,15 @@ def h_portSpec : Handler := fun j => do
   pure (Json.mkObj [("defined", consistent && determined), ("consistent", consistent),
     ("determined", determined), ("wellposed", wp), ("z", jsonGQ z)])
 
+/-- op `net_consistent`: do the circuit equations of the network (with its sources) have a solution at all
+(possibly with undetermined potentials at floating nodes)? -/
+def h_netConsistent : Handler := fun j => do
+  let N ← getNet (← j.getObjVal? "net")
+  let (A, rhs) := tableau N
+  let n := (A.headD []).length
+  let (consistent, _, _) := functionalOnSolutions A rhs ((List.range n).map fun _ => (0 : GQ))
+  pure (Json.mkObj [("consistent", consistent)])
+
 /-! ### C09 -/
 
 def getOptRat (j : Json) (k : String) : Except String (Option Rat) :=
@@ -197,7 +207,7 @@ def h_twoSided : Handler := fun j => do
 def handlersPort : List (String × Handler) :=
   [("port_pre", h_portPre), ("port_z", h_portZ), ("elem_z", h_elemZ), ("oc_voltage", h_ocVoltage),
    ("sc_current", h_scCurrent), ("equivalents", h_equivalents), ("port_sweep", h_portSweep),
-   ("port_spec", h_portSpec),
+   ("port_spec", h_portSpec), ("net_consistent", h_netConsistent),
    ("freq_components", h_freqComponents), ("active_index", h_activeIndex),
    ("time_value", h_timeValue), ("two_sided", h_twoSided)]
 
